@@ -124,8 +124,44 @@ def contextOf (rs : List (Text × Except PErr (Option FileCtx))) : Except (List 
 
 /-! ### validators over a context -/
 
-/-- outcome oracle for the asynchronous validators (Lua, AI): `none` = no diagnostic -/
-abbrev AsyncOracle := String → Text → Block → Except ErrKind (Option (List (String × Text)))
+/-- `block_content` of check-lua / check-ai: the trimmed content, or with `<rule>-pattern` the `value`
+    group (else the whole match) of the first match in the whole content, empty when nothing matches;
+    an uncompilable pattern is an error -/
+def blockContent (re : Regex) (file : Text) (b : Block) (patternAttr : String) (e : ErrKind) : Except ErrKind Text :=
+  match attrGet b.attrs patternAttr.toList with
+  | some p =>
+    if !re.compiles p then .error e
+    else match re.captures p (content file b) with
+      | some lm => let (s, t) := lm.value.getD lm.whole; .ok (sliceBytes s t (content file b))
+      | none => .ok []
+  | none => .ok (trim (content file b))
+
+/-- what a script / the endpoint did with one block -/
+inductive AsyncOut where
+  | pass                          -- nil / "OK"
+  | message (data : List (String × Text))
+  | echo                          -- the script returns its arguments (serialised by `luaEcho`)
+  | fail (e : ErrKind)
+deriving Repr
+
+/-- outcome oracle for the asynchronous validators (the Lua interpreter / the HTTP endpoint) -/
+abbrev AsyncOracle := String → Text → Block → AsyncOut
+
+def insertAttr (a : Text × Text) : List (Text × Text) → List (Text × Text)
+  | [] => [a]
+  | x :: xs => if lexCmp a.1 x.1 = .lt then a :: x :: xs else x :: insertAttr a xs
+
+/-- attributes as the script sees them: one entry per name (last duplicate wins), sorted by name -/
+def attrsSorted (attrs : List (Text × Text)) : List (Text × Text) :=
+  ((attrs.map (·.1)).eraseDups.map (fun k => (k, (attrGet attrs k).getD []))).foldl (fun acc a => insertAttr a acc) []
+
+def sep1 : Char := Char.ofNat 31
+def sep2 : Char := Char.ofNat 30
+
+/-- the echo script's rendering of `validate(ctx, content)`'s arguments -/
+def luaEcho (path : Text) (line : Nat) (attrs : List (Text × Text)) (content : Text) : Text :=
+  "file=".toList ++ path ++ [sep1] ++ "line=".toList ++ natText line ++ [sep1] ++ "attrs=".toList ++
+  ((attrsSorted attrs).map (fun (k, v) => k ++ ['='] ++ v ++ [sep2])).flatten ++ [sep1] ++ "content=".toList ++ content
 
 /-- `ValidatorDetector::detect` -/
 def needs (v : String) (b : BlockCtx) : Bool :=
@@ -143,20 +179,31 @@ def checkBlock (re : Regex) (oracle : AsyncOracle) (v : String) (f : FileCtx) (b
   | "line-count", some a => lineCount f.text b.block a
   | "check-lua", some a =>
     if (trim a).isEmpty then .error .emptyLuaPath else
-    match oracle "check-lua" f.path b.block with
+    match blockContent re f.text b.block "check-lua-pattern" .luaError with
     | .error e => .error e
-    | .ok none => .ok none
-    | .ok (some data) => match severityOf b.block.attrs with
-      | .error e => .error e
-      | .ok sev => .ok (some (tagDiag "check-lua" b.block sev data))
+    | .ok c =>
+      let finish (data : List (String × Text)) : Except ErrKind (Option Diag) :=
+        match severityOf b.block.attrs with
+        | .error e => .error e
+        | .ok sev => .ok (some (tagDiag "check-lua" b.block sev data))
+      match oracle "check-lua" f.path b.block with
+      | .fail e => .error e
+      | .pass => .ok none
+      | .message data => finish data
+      | .echo => finish [("script", a), ("lua_error", luaEcho f.path b.block.tagStart.line b.block.attrs c)]
   | "check-ai", some a =>
     if (trim a).isEmpty then .error .emptyAiCondition else
-    match oracle "check-ai" f.path b.block with
+    match blockContent re f.text b.block "check-ai-pattern" .aiError with
     | .error e => .error e
-    | .ok none => .ok none
-    | .ok (some data) => match severityOf b.block.attrs with
-      | .error e => .error e
-      | .ok sev => .ok (some (tagDiag "check-ai" b.block sev data))
+    | .ok _ =>
+      match oracle "check-ai" f.path b.block with
+      | .fail e => .error e
+      | .pass => .ok none
+      | .echo => .error .oracleMiss
+      | .message data =>
+        match severityOf b.block.attrs with
+        | .error e => .error e
+        | .ok sev => .ok (some (tagDiag "check-ai" b.block sev data))
   | _, _ => .ok none
 
 /-- `named_modified_blocks.contains_key(&(file, name))`: some block of that file with that name has modified content -/
